@@ -631,6 +631,26 @@ pub fn drive(check: Check, tier: &str, seed: i64) -> i32 {
             (0..N_AMBIENT).map(ambient_name).collect::<Vec<_>>().join("; ")
         )
     };
+    // many families that differ only in a bracketed suffix (e.g. one per read boundary) are
+    // reported as one line
+    if fam_info.len() > 80 {
+        let mut grouped: Vec<(String, u64, u64, f64, u64)> = Vec::new();
+        for f in &fam_info {
+            let name = f["family"].as_str().unwrap_or("");
+            let g = name.split(" [").next().unwrap_or(name).to_string();
+            let (sc, ex, w) = (f["scenarios"].as_u64().unwrap_or(0), f["executions"].as_u64().unwrap_or(0), f["wall_s"].as_f64().unwrap_or(0.0));
+            match grouped.iter_mut().find(|x| x.0 == g) {
+                Some(x) => {
+                    x.1 += sc;
+                    x.2 += ex;
+                    x.3 += w;
+                    x.4 += 1;
+                }
+                None => grouped.push((g, sc, ex, w, 1)),
+            }
+        }
+        fam_info = grouped.into_iter().map(|(g, sc, ex, w, k)| json!({"family": g, "variants": k, "scenarios": sc, "executions": ex, "wall_s": w})).collect();
+    }
     let counters: BTreeMap<String, u64> = total.counters.iter().map(|(k, v)| (k.to_string(), *v)).collect();
     let ev = json!({
         "property_id": check.id,
